@@ -5,6 +5,7 @@ use crate::backends::*;
 use crate::drivers::*;
 use crate::model::*;
 use crate::report::{hex, Kv, Report};
+use crate::rng::Rng;
 use crate::{par_items, Ctx, Tier};
 use dsi_bitstream::prelude::*;
 
@@ -144,6 +145,43 @@ pub fn run(ctx: &Ctx) -> Report {
                 bad.push(format!("{}(1e3)", name));
                 bad.push(format!("{}(١)", name));
             }
+            // text without an opening parenthesis has no parameter: only the six bare names are codes
+            let all_names = ["Unary", "Gamma", "Delta", "Omega", "VByteBe", "VByteLe", "Zeta", "Pi", "Golomb", "ExpGolomb", "Rice"];
+            for name in all_names {
+                for suffix in [")", ")3", ")3)", "3", " 3", "]3", "))", ")0", ")18446744073709551616", "3)", " ", ")x", "\t3", ")3)3", ",3", ":3", "=3"] {
+                    bad.push(format!("{}{}", name, suffix));
+                }
+            }
+            // a name part (the text before the first opening parenthesis) that is not a code name
+            for junk in ["Zeta)", ")Zeta", "Zeta ", "Zeta3", "ZetaK", "Pi)", "Golomb)", "Rice]", "ExpGolomb)", "Zeta)3", "3", ")", "Pi)2)", "Golomb)5", "Zeta,", "Zeta\u{0}"] {
+                for tail in ["(3)", "(", "(3", "()", "(x)"] {
+                    bad.push(format!("{}{}", junk, tail));
+                }
+            }
+            // random texts of the same two classes
+            let mut rng = Rng::derive(ctx.seed, 0xC16BAD);
+            let pieces = ["Zeta", "Pi", "Golomb", "ExpGolomb", "Rice", "Gamma", "Delta", ")", ")", "3", "12", "0", " ", "]", "x", "-"];
+            for _ in 0..ctx.pick(20, 3000, 30000) {
+                let n = 1 + rng.below(4) as usize;
+                let mut s = String::new();
+                for _ in 0..n {
+                    s.push_str(*rng.pick(&pieces[..]));
+                }
+                let bare = ["Unary", "Gamma", "Delta", "Omega", "VByteBe", "VByteLe"].contains(&s.as_str());
+                if bare {
+                    continue;
+                }
+                if rng.chance(1, 3) {
+                    // give it a parenthesised parameter: the name part must then be one of the five
+                    if ["Zeta", "Pi", "Golomb", "ExpGolomb", "Rice"].contains(&s.as_str()) {
+                        continue;
+                    }
+                    s.push_str("(3)");
+                }
+                bad.push(s);
+            }
+            bad.sort();
+            bad.dedup();
             for s in bad {
                 rep.eval(1);
                 rep.case(&("malformed", s.clone()));
